@@ -93,7 +93,7 @@ static std::string do_readfile(std::istringstream& is) {
 static std::string do_writefile(std::istringstream& is) {
     std::string path = TMPD + "/vblf-w" + std::to_string(getpid()) + ".blf";
     std::string tok; std::vector<std::string> toks; while (is >> tok) toks.push_back(tok);
-    File f; size_t i = 0;
+    File* fp = new File; File& f = *fp; size_t i = 0; bool noclose = false;
     for (; i < toks.size() && toks[i] != ";;"; i++) {
         const std::string& t = toks[i]; size_t e = t.find('='); if (e == std::string::npos) continue;
         std::string k = t.substr(0, e), v = t.substr(e + 1);
@@ -116,6 +116,7 @@ static std::string do_writefile(std::istringstream& is) {
             if (t == "@z") usleep(300000);
             else if (t.rfind("@cs=", 0) == 0) f.setDefaultLogContainerSize(uint32_t(strtoul(t.c_str() + 4, nullptr, 10)));
             else if (t.rfind("@level=", 0) == 0) f.compressionLevel = atoi(t.c_str() + 7);
+            else if (t == "@noclose") noclose = true;       // the File is destroyed without an explicit close()
             continue;
         }
         const ClassReflect* c = find_class(toks[i]); i++;
@@ -126,7 +127,8 @@ static std::string do_writefile(std::istringstream& is) {
         f.write(o);
         g_poll += int(f.good()) + int(f.eof()) + int(f.is_open());   // (in a write session the workers change that state concurrently)
     }
-    f.close();
+    if (!noclose) f.close();
+    delete fp;
     std::ifstream in(path, std::ios::binary); std::vector<uint8_t> b((std::istreambuf_iterator<char>(in)), std::istreambuf_iterator<char>());
     unlink(path.c_str());
     return "writefile out=" + to_hex(b.data(), b.size());
@@ -136,7 +138,10 @@ static std::string do_writefile(std::istringstream& is) {
 // consumer that stalls, report the peak live heap of each session
 static std::string do_heap(std::istringstream& is) {
     long n = 0, payload = 0; unsigned cs = 4096; int level = 0; long stall_every = 0, stall_us = 0; long unknown_every = 0;
-    is >> n >> payload >> cs >> level >> stall_every >> stall_us >> unknown_every;   // unknown_every = k: all but every k-th object carry a type code the reader does not know
+    long damage = 0;
+    is >> n >> payload >> cs >> level >> stall_every >> stall_us >> unknown_every >> damage;   // unknown_every = k: all but every k-th object carry a type code the reader does not know
+    // damage = 1 (level 0 only): the declared size of the first object is zeroed after writing, so that the parser gives up at once;
+    // the application notices the end, dawdles for 400 ms and only then closes
     std::string path = TMPD + "/vblf-m" + std::to_string(getpid()) + ".blf";
     long long wpeak = 0, rpeak = 0; long got = 0;
     {
@@ -147,10 +152,12 @@ static std::string do_heap(std::istringstream& is) {
             f.write(a); }
         f.close(); wpeak = (long long)g_peak - h0;
     }
+    if (damage && level == 0) { std::fstream p(path, std::ios::in | std::ios::out | std::ios::binary); p.seekp(144 + 32 + 8); const char z[4] = {0, 0, 0, 0}; p.write(z, 4); }
     {
         long long h0 = g_live; g_peak = (long long)g_live;
         File f; f.open(path.c_str(), std::ios_base::in);
         while (true) { if (stall_every > 0 && got % stall_every == stall_every - 1) usleep(useconds_t(stall_us)); ObjectHeaderBase* o = f.read(); if (!o) break; delete o; got++; }
+        if (damage) usleep(400000);
         f.close(); rpeak = (long long)g_peak - h0;
     }
     unlink(path.c_str());
